@@ -10,6 +10,10 @@
 //!   mutated    a valid grammar script with random byte flips
 //!   predicates transactions with 1-3 predicates of random bytes / words: estimate + check
 //! under the default schedule (most), the unit schedule and randomised schedules (costs may be 0).
+//! Directed streams run first (see `directed_arith`, `directed_opcodes`, `directed_receipts`): every
+//! arithmetic / wide-integer opcode over the full cross product of boundary operands, every opcode
+//! with adversarial registers and immediates, exact receipt counts 65530..65535 at top level and
+//! through a CALL.
 //! Every run is single-stepped by vmtrace under `guarded` with a step budget, and repeated with a
 //! plain `transact` when the traced run terminated.
 //! Oracle (property text): no host panic; no InterpreterError::Bug; the only errors are panics
@@ -24,6 +28,8 @@ use fuel_types::{AssetId, BlockHeight, ContractId};
 use fuel_vm::checked_transaction::{CheckPredicateParams, EstimatePredicates, IntoChecked};
 use fuel_vm::interpreter::{MemoryInstance, NotSupportedEcal};
 use fuel_vm::storage::predicate::EmptyStorage;
+#[allow(unused_imports)]
+use fuel_tx::Receipt;
 use fvh::vmtrace::*;
 use fvh::*;
 use serde_json::json;
@@ -284,6 +290,294 @@ fn predicate_case(rng: &mut Rng, params: &ConsensusParameters, out: &mut Out) {
     }
 }
 
+// ====================================================================== directed streams
+// (added after seeded changes that only adversarial OPERANDS or exact receipt counts expose)
+
+/// 64-bit boundary operands (superset of Rng::u64_biased's table and of alu.rs's)
+const B64: [u64; 24] = [
+    0, 1, 2, 3, 7, 8, 63, 64, 65, 255, 256, 1 << 31, (1 << 32) - 1, 1 << 32, (1 << 32) + 1, 1 << 62,
+    (1 << 63) - 1, 1 << 63, (1 << 63) + 1, (1 << 63) + 2, 3 << 62, u64::MAX - 2, u64::MAX - 1, u64::MAX,
+];
+
+/// boundary values of an n-byte big-endian integer: 0,1,2,3, 2^64-1,2^64,2^64+1, around the half
+/// width, around half the RANGE (2^(N-1)-1, 2^(N-1), +1, +2), 3*2^(N-2), MAX-2, MAX-1, MAX
+fn wide_table(n: usize) -> Vec<Vec<u8>> {
+    let be = |f: &dyn Fn(&mut Vec<u8>)| { let mut v = vec![0u8; n]; f(&mut v); v };
+    let add_small = |v: &Vec<u8>, k: u8| { let mut v = v.clone(); let mut c = k as u16; for x in v.iter_mut().rev() { let t = *x as u16 + c; *x = t as u8; c = t >> 8; } v };
+    let sub_small = |v: &Vec<u8>, k: u8| { let mut v = v.clone(); let mut b = k as i16; for x in v.iter_mut().rev() { let t = *x as i16 - b; if t < 0 { *x = (t + 256) as u8; b = 1; } else { *x = t as u8; b = 0; } } v };
+    let zero = vec![0u8; n];
+    let max = vec![0xffu8; n];
+    let p64 = be(&|v| v[n - 9] = 1);
+    let phalf = be(&|v| v[n / 2 - 1] = 1);       // 2^(N/2)
+    let top = be(&|v| v[0] = 0x80);              // 2^(N-1)
+    let three_q = be(&|v| v[0] = 0xc0);          // 3 * 2^(N-2)
+    vec![zero.clone(), add_small(&zero, 1), add_small(&zero, 2), add_small(&zero, 3),
+         sub_small(&p64, 1), p64.clone(), add_small(&p64, 1),
+         sub_small(&phalf, 1), phalf.clone(), add_small(&phalf, 1),
+         sub_small(&top, 1), top.clone(), add_small(&top, 1), add_small(&top, 2), three_q,
+         sub_small(&max, 2), sub_small(&max, 1), max]
+}
+
+fn raw4(opc: u8, a: u8, b: u8, c: u8, d: u8) -> u32 { ((opc as u32) << 24) | ((a as u32 & 63) << 18) | ((b as u32 & 63) << 12) | ((c as u32 & 63) << 6) | (d as u32 & 63) }
+
+/// nested loops over `arity` indices into a table of `k` entries of `width` bytes in the script data;
+/// per iteration: pointer registers PA/PB/PC to the entries, VA/VB/VC their last 8 bytes as values,
+/// then `body`.  $flag = `flags` (3: arithmetic errors do not panic, so the loops complete).
+const PA: u8 = 0x24; const PB: u8 = 0x25; const PC: u8 = 0x26; const VA: u8 = 0x29; const VB: u8 = 0x2a; const VC: u8 = 0x2b; const DST: u8 = 0x28; const RES: u8 = 0x2c;
+fn loop_script(arity: usize, width: u32, k: u32, flags: u32, body: &[u32]) -> Vec<u32> {
+    let (ri, rj, rk, rkk, t) = (0x20u8, 0x21u8, 0x22u8, 0x23u8, 0x27u8);
+    let idx = [ri, rj, rk];
+    let ptr = [PA, PB, PC];
+    let val = [VA, VB, VC];
+    let mut a: Vec<Asm> = vec![
+        Asm::I(op::gtf(R_DATA, 0u8, GTFArgs::ScriptData as u16)),
+        Asm::I(op::movi(t, flags)), Asm::I(op::flag(t)),
+        Asm::I(op::cfei(128)), Asm::I(op::move_(DST, RegId::SSP)),
+        Asm::I(op::movi(rkk, k)),
+    ];
+    for lvl in 0..arity {
+        a.push(Asm::I(op::movi(idx[lvl], 0)));
+        a.push(Asm::Label(lvl as u32 + 1));
+    }
+    for lvl in 0..arity {
+        a.push(Asm::I(op::muli(t, idx[lvl], width as u16)));
+        a.push(Asm::I(op::add(ptr[lvl], R_DATA, t)));
+        a.push(Asm::I(op::lw(val[lvl], ptr[lvl], (width / 8 - 1) as u16)));
+    }
+    for w in body { a.push(Asm::Raw(*w)); }
+    for lvl in (0..arity).rev() {
+        a.push(Asm::I(op::addi(idx[lvl], idx[lvl], 1)));
+        a.push(Asm::Jnei(idx[lvl], rkk, lvl as u32 + 1));
+    }
+    a.push(Asm::I(op::ret(RegId::ONE)));
+    assemble(&a).expect("loop script")
+}
+
+fn small_world(rng: &mut Rng, schedule: GasSchedule) -> (World, AssetId, ContractId, DataLayout) {
+    let assets = vec![AssetId::from(rng.bytes32()), AssetId::from(rng.bytes32())];
+    let mut world = World::new(schedule, 3, assets.clone());
+    let id = ContractId::from(rng.bytes32());
+    world.deploy(ContractDef { id, code: words_to_bytes(&[w32(op::ret(RegId::ONE))]), balances: vec![(assets[0], 100)], slots: vec![(rng.bytes32(), rng.bytes(32))] });
+    let layout = DataLayout::new(rng, &[id], &assets, 0);
+    (world, assets[0], id, layout)
+}
+
+/// run one directed script through a plain transact; oracle: no host panic, no Bug
+fn run_directed(class: &str, what: &str, world: &World, tx: &TxSpec, out: &mut Out) -> Option<PlainRun> {
+    out.oracle_evaluations += 1;
+    out.count(&format!("directed:{class}"));
+    let replay = json!({"kind": format!("directed:{class}"), "what": what, "script": hex::encode(&tx.script), "script_data": hex::encode(&tx.script_data), "gas_limit": tx.gas_limit, "schedule": world.schedule.name()});
+    match guarded(|| run_plain(world, tx)) {
+        Ok(Ok(p)) => {
+            if let FinalState::Error(text) = &p.final_state {
+                match bug_class(text) {
+                    Some(c) => out.oracle_fail(&c, &format!("{class} {what}: transact returned {text}"), replay),
+                    None => out.oracle_fail("unexpected-interpreter-error", &format!("{class} {what}: {text}"), replay),
+                }
+            }
+            let fin = match &p.final_state { FinalState::Error(_) => "Error".to_string(), f => format!("{f:?}").split('(').next().unwrap_or("").to_string() };
+            out.count(&format!("directed:{class}:{fin}"));
+            Some(p)
+        }
+        Ok(Err(e)) => { out.count(&format!("directed:{class}:not-buildable")); let _ = e; None }
+        Err(p) => { out.oracle_fail(&format!("host-panic:{}", p.split([':', '(']).next().unwrap_or("").trim().chars().take(60).collect::<String>()),
+                                   &format!("{class} {what}: host panic: {p}"), replay); None }
+    }
+}
+
+/// (i) every ALU / narrow-int / wide-int opcode over the full cross product of boundary operands
+fn directed_arith(rng: &mut Rng, out: &mut Out, thorough: bool) {
+    let (world, base, _id, _l) = small_world(rng, GasSchedule::Default);
+    let mk = |script: Vec<u32>, data: Vec<u8>| { let mut tx = TxSpec::new(words_to_bytes(&script), data, 60_000_000); tx.coins.push((base, 10)); tx };
+    let data64: Vec<u8> = B64.iter().flat_map(|v| v.to_be_bytes()).collect();
+    let flags_list: &[u32] = if thorough { &[3, 0, 1, 2] } else { &[3, 0] };
+    // 3-register ALU ops: dst, a, b
+    for opc in 0x10u8..=0x21 {
+        if fuel_asm::Opcode::try_from(opc).is_err() { continue; }
+        for &fl in flags_list {
+            let body = [if opc == 0x1a || opc == 0x1c { raw4(opc, RES, VA, 0, 0) } else { raw4(opc, RES, VA, VB, 0) }];
+            let r = run_directed("alu", &format!("opcode {opc:#x} flags {fl}"), &world, &mk(loop_script(2, 8, 24, fl, &body), data64.clone()), out);
+            if let Some(p) = r { if fl == 3 && p.final_state != FinalState::Return(1) {
+                out.oracle_fail("directed-loop-did-not-complete", &format!("opcode {opc:#x}: {:?}", p.final_state), json!({"kind": "self-check"})); } }
+        }
+    }
+    // MLDV dst a b c
+    for &fl in flags_list { run_directed("alu", &format!("MLDV flags {fl}"), &world, &mk(loop_script(3, 8, 24, fl, &[raw4(0x22, RES, VA, VB, VC as u8)]), data64.clone()), out); }
+    // immediate ALU ops with boundary 12-bit immediates
+    for opc in 0x50u8..=0x5a {
+        if fuel_asm::Opcode::try_from(opc).is_err() { continue; }
+        for imm in [0u32, 1, 2, 63, 64, 65, 4094, 4095] {
+            let w = ((opc as u32) << 24) | ((RES as u32) << 18) | ((VA as u32) << 12) | imm;
+            run_directed("alu-imm", &format!("opcode {opc:#x} imm {imm}"), &world, &mk(loop_script(1, 8, 24, 3, &[w]), data64.clone()), out);
+        }
+    }
+    // NIOP: every 6-bit immediate (operation, width, flags)
+    for imm in 0u8..64 { run_directed("niop", &format!("imm {imm}"), &world, &mk(loop_script(2, 8, 24, 3, &[raw4(0x23, RES, VA, VB, imm)]), data64.clone()), out); }
+    // wide integers: 128-bit (0xa0,a2,..) and 256-bit (0xa1,a3,..)
+    // self-check of the operand table: it contains add-mod operands whose residues overflow the native width
+    {
+        let t: Vec<u128> = wide_table(16).iter().map(|v| u128::from_be_bytes(v.clone().try_into().unwrap())).collect();
+        let mut n = 0usize;
+        for a in &t { for b in &t { for d in &t { if *d > (1u128 << 127) && (a % d).checked_add(b % d).is_none() { n += 1; } } } }
+        out.notes.push(format!("directed wide operands: {n} of {} 128-bit (a, b, modulus) triples have modulus > 2^127 and residues summing past 2^128; every triple is executed by WDAM/WDMM/WDMD and the 256-bit analogues", t.len().pow(3)));
+        if n == 0 { out.oracle_fail("directed-operand-table-lost-its-adversarial-triples", "no overflowing add-mod triple in the table", json!({"kind": "self-check"})); }
+    }
+    for (wide, width) in [(0u8, 16u32), (1u8, 32u32)] {
+        let tab = wide_table(width as usize);
+        let data: Vec<u8> = tab.iter().flatten().cloned().collect();
+        let k = tab.len() as u32;
+        // compare / op / mul / div: dst, lhs ptr, rhs (pointer when indirect, else the register VALUE), all immediates
+        for fam in [0xa0u8, 0xa2, 0xa4, 0xa6] {
+            for imm in 0u8..64 {
+                // rhs register: pointer and value variants
+                for rhs in [PB, VB] {
+                    let d = if fam == 0xa0 { RES } else { DST };
+                    run_directed("wide", &format!("opcode {:#x} imm {imm} rhs {}", fam + wide, if rhs == PB { "ptr" } else { "value" }), &world,
+                        &mk(loop_script(2, width, k, 3, &[raw4(fam + wide, d, PA, rhs, imm)]), data.clone()), out);
+                }
+            }
+        }
+        // muldiv / addmod / mulmod: dst, a, b, c pointers — full cube
+        for fam in [0xa8u8, 0xaa, 0xac] {
+            for &fl in flags_list {
+                let r = run_directed("wide", &format!("opcode {:#x} flags {fl}", fam + wide), &world,
+                    &mk(loop_script(3, width, k, fl, &[raw4(fam + wide, DST, PA, PB, PC)]), data.clone()), out);
+                // coverage self-check: with $flag = 3 nothing panics, so the whole cube of operands was executed
+                if let Some(p) = r { if fl == 3 && p.final_state != FinalState::Return(1) {
+                    out.oracle_fail("directed-loop-did-not-complete", &format!("opcode {:#x}: {:?}", fam + wide, p.final_state), json!({"kind": "self-check"})); } }
+            }
+        }
+    }
+}
+
+/// (ii) every defined opcode with adversarial register operands (numbers, valid / invalid pointers) and immediates
+fn directed_opcodes(rng: &mut Rng, out: &mut Out, per_opcode: usize) {
+    let (world, base, id, layout) = small_world(rng, GasSchedule::Default);
+    // script data: the scenario layout (call struct, asset ids, keys, ...) ++ B64 ++ 256-bit boundary values
+    let mut data = layout.bytes.clone();
+    while data.len() % 8 != 0 { data.push(0); }
+    let off64 = data.len();
+    data.extend(B64.iter().flat_map(|v| v.to_be_bytes()));
+    let offw = data.len();
+    let wt = wide_table(32);
+    for v in &wt { data.extend(v); }
+    for opc in 0u16..=255 {
+        let opc = opc as u8;
+        let Ok(_) = fuel_asm::Opcode::try_from(opc) else { continue; };
+        let nregs = Instruction::try_from([opc, 0, 0, 0]).map(|i| i.reg_ids().iter().flatten().count()).unwrap_or(0);
+        for _ in 0..per_opcode {
+            let mut w: Vec<u32> = vec![w32(op::gtf(R_DATA, 0u8, GTFArgs::ScriptData as u16)), w32(op::cfei(256)), w32(op::movi(0x30, 64)), w32(op::aloc(0x30)),
+                                       w32(op::movi(0x30, rng.below(4) as u32)), w32(op::flag(0x30))];
+            let regs = [0x20u8, 0x21, 0x22, 0x23];
+            for r in regs.iter().take(nregs) {
+                match rng.below(10) {
+                    0 | 1 | 2 => { let i = rng.below(24) as usize; w.push(w32(op::lw(*r, R_DATA, ((off64 + 8 * i) / 8) as u16))); }
+                    3 | 4 => { let i = rng.below(wt.len() as u64) as usize; let o = offw + 32 * i; w.push(w32(op::movi(*r, o as u32))); w.push(w32(op::add(*r, *r, R_DATA))); }
+                    5 => { let o = rng.below(layout.bytes.len() as u64 / 8) * 8; w.push(w32(op::movi(*r, o as u32))); w.push(w32(op::add(*r, *r, R_DATA))); }
+                    6 => w.push(w32(op::addi(*r, RegId::SSP, (rng.below(24) * 8) as u16))),
+                    7 => w.push(w32(op::addi(*r, RegId::HP, (rng.below(8) * 8) as u16))),
+                    8 => w.push(w32(op::move_(*r, *rng.pick(&[RegId::HP, RegId::SP, RegId::SSP, RegId::IS, RegId::PC, RegId::GGAS, RegId::ZERO, RegId::ONE])))),
+                    _ => { w.push(w32(op::movi(*r, rng.below(1 << 18) as u32))); }
+                }
+            }
+            let immbits = 24 - 6 * nregs as u32;
+            let rnd = rng.next() as u32;
+            let imm = if immbits == 0 { 0 } else { let m = (1u32 << immbits) - 1; *rng.pick(&[0u32, 1, 2, 8, 32, m, m - 1, m >> 1, (m >> 1) + 1, rnd & m]) & m };
+            let mut word = (opc as u32) << 24;
+            for (i, r) in regs.iter().take(nregs).enumerate() { word |= (*r as u32) << (18 - 6 * i as u32); }
+            word |= imm;
+            w.push(word);
+            w.push(w32(op::ret(RegId::ONE)));
+            let mut tx = TxSpec::new(words_to_bytes(&w), data.clone(), 3000);
+            tx.coins.push((base, 1000));
+            tx.contract_inputs.push(id);
+            tx.outputs = vec![OutSpec::Variable, OutSpec::Change(base)];
+            run_directed("opcode", &format!("opcode {opc:#x} word {word:#010x}"), &world, &tx, out);
+        }
+    }
+}
+
+/// (iii) exact receipt counts around the limit, at top level and through a CALL
+fn directed_receipts(rng: &mut Rng, out: &mut Out, thorough: bool) {
+    #[derive(Clone)]
+    struct Job { what: String, world: World, tx: TxSpec }
+    let mut jobs: Vec<Job> = vec![];
+    let logs = |count: u32| -> Vec<Instruction> {
+        if count == 0 { return vec![]; }
+        vec![op::movi(0x20, count), op::log(0x20, RegId::ZERO, RegId::ZERO, RegId::ZERO), op::subi(0x20, 0x20, 1), op::jnzb(0x20, RegId::ZERO, 1)]
+    };
+    let tails: Vec<(&str, Vec<Instruction>)> = vec![
+        ("ret", vec![op::ret(RegId::ONE)]),
+        ("rvrt", vec![op::rvrt(RegId::ONE)]),
+        ("panic", vec![op::div(0x10, RegId::ONE, RegId::ZERO)]),
+        ("log-then-ret", vec![op::log(RegId::ONE, RegId::ONE, RegId::ONE, RegId::ONE), op::ret(RegId::ONE)]),
+        ("retd", vec![op::retd(RegId::ZERO, RegId::ZERO)]),
+    ];
+    let ends: Vec<(&str, Instruction)> = vec![("RET", op::ret(RegId::ONE)), ("RETD", op::retd(RegId::ZERO, RegId::ZERO)), ("RVRT", op::rvrt(RegId::ONE))];
+    let schedule = if rng.bool() { GasSchedule::Free } else { GasSchedule::Unit };
+    for t in 65_530u32..=65_535 {
+        // top level: exactly t LOG receipts, then the tail
+        for (tn, tail) in &tails {
+            let (world, base, _id, layout) = small_world(rng, schedule.clone());
+            let mut s = logs(t); s.extend(tail.clone());
+            let mut tx = TxSpec::new(words_to_bytes(&instrs_to_words(&s)), layout.bytes.clone(), 50_000_000);
+            tx.coins.push((base, 10));
+            jobs.push(Job { what: format!("top-level {t} logs then {tn}"), world, tx });
+        }
+        // through a call: p logs in the script, the Call receipt, m logs in the callee (p + 1 + m = t), callee end, caller tail
+        let ps: Vec<u32> = if thorough { vec![0, 1, 30_000, t - 1] } else { vec![0] };
+        for p in ps {
+            let m = t - 1 - p;
+            for (en, end) in &ends {
+                for (tn, tail) in &tails {
+                    let assets = vec![AssetId::from(rng.bytes32()), AssetId::from(rng.bytes32())];
+                    let mut world = World::new(schedule.clone(), 3, assets.clone());
+                    let id = ContractId::from(rng.bytes32());
+                    let mut callee = logs(m); callee.push(*end);
+                    world.deploy(ContractDef { id, code: words_to_bytes(&instrs_to_words(&callee)), balances: vec![], slots: vec![] });
+                    let layout = DataLayout::new(rng, &[id], &assets, 0);
+                    let mut s = vec![op::gtf(R_DATA, RegId::ZERO, GTFArgs::ScriptData as u16)];
+                    s.extend(logs(p));
+                    s.extend([op::addi(0x30, R_DATA, layout.call_off[0] as u16), op::addi(0x32, R_DATA, layout.asset_off[0] as u16), op::call(0x30, RegId::ZERO, 0x32, RegId::CGAS)]);
+                    s.extend(tail.clone());
+                    let mut tx = TxSpec::new(words_to_bytes(&instrs_to_words(&s)), layout.bytes.clone(), 50_000_000);
+                    tx.coins.push((assets[0], 10));
+                    tx.contract_inputs.push(id);
+                    jobs.push(Job { what: format!("{p} logs, CALL, {m} logs in the callee, callee {en} (receipt slot {t}), caller {tn}"), world, tx });
+                }
+            }
+        }
+    }
+    // the runs are independent and ~0.2 s each: spread them over threads
+    let n_threads = 8usize;
+    let chunks: Vec<Vec<Job>> = (0..n_threads).map(|k| jobs.iter().enumerate().filter(|(i, _)| i % n_threads == k).map(|(_, j)| j.clone()).collect()).collect();
+    let results: Vec<Vec<(String, Result<Result<PlainRun, String>, String>)>> = std::thread::scope(|sc| {
+        let hs: Vec<_> = chunks.iter().map(|c| sc.spawn(move || c.iter().map(|j| (j.what.clone(), guarded(|| run_plain(&j.world, &j.tx)))).collect::<Vec<_>>())).collect();
+        hs.into_iter().map(|h| h.join().unwrap_or_default()).collect()
+    });
+    let by_what: BTreeMap<String, &Job> = jobs.iter().map(|j| (j.what.clone(), j)).collect();
+    for (what, r) in results.into_iter().flatten() {
+        out.oracle_evaluations += 1;
+        out.count("directed:receipt-limit");
+        let j = by_what[&what];
+        let replay = json!({"kind": "directed:receipt-limit", "what": what, "script": hex::encode(&j.tx.script), "contracts": j.world.contracts.iter().map(|c| hex::encode(&c.code)).collect::<Vec<_>>(), "schedule": j.world.schedule.name()});
+        match r {
+            Err(p) => out.oracle_fail(&format!("host-panic:{}", p.split([':', '(']).next().unwrap_or("").trim().chars().take(60).collect::<String>()), &format!("receipt limit, {what}: host panic: {p}"), replay),
+            Ok(Err(_)) => out.count("directed:receipt-limit:not-buildable"),
+            Ok(Ok(p)) => {
+                if let FinalState::Error(text) = &p.final_state {
+                    let c = bug_class(text).unwrap_or_else(|| "unexpected-interpreter-error".into());
+                    out.oracle_fail(&c, &format!("receipt limit, {what}: {text}"), replay.clone());
+                } else {
+                    if p.receipts.len() > 65_535 { out.oracle_fail("more-than-65535-receipts", &format!("receipt limit, {what}: {} receipts", p.receipts.len()), replay.clone()); }
+                    if !matches!(p.receipts.last(), Some(fuel_tx::Receipt::ScriptResult { .. })) { out.oracle_fail("receipts-do-not-end-with-script-result", &format!("receipt limit, {what}"), replay.clone()); }
+                    out.count(&format!("directed:receipt-limit:{}-receipts", p.receipts.len()));
+                }
+            }
+        }
+    }
+}
+
 fn run_c29(args: &Args, out: &mut Out) {
     let mut rng = Rng::new(args.seed ^ 0xC29);
     let mut st = Stats { cases: 0, steps: 0, skipped: 0, model_steps: 0 };
@@ -293,6 +587,13 @@ fn run_c29(args: &Args, out: &mut Out) {
         let scn = Scenario::from_json(&v["scenario"]).expect("scenario");
         do_case(v["kind"].as_str().unwrap_or("replay"), &scn, 0, out, &mut st, true);
         return;
+    }
+    // directed streams first (oracle only)
+    {
+        let mut drng = Rng::new(args.seed ^ 0xD1);
+        directed_arith(&mut drng, out, args.thorough());
+        directed_opcodes(&mut drng, out, args.scale(40, 1500));
+        directed_receipts(&mut drng, out, args.thorough());
     }
     let n = args.scale(2000, 200_000);
     // the Coq side replays a bounded number of steps; the oracle sees every run
